@@ -18,6 +18,8 @@ FAULTS = {
     'raises-on-data': ('b', ('qartod', 'attenuated_signal_test', {'suspect_threshold': Fr(2), 'fail_threshold': Fr(1), 'check_type': 'nonsense'})),
     'needs-depth': ('a', ('qartod', 'density_inversion_test', {'suspect_threshold': Fr(-1)})),     # only a fault on a table without z
     'aggregate-listed-as-test': ('a', ('qartod', 'aggregate', {})),      # documented spelling; aggregate() cannot run as a stream test
+    'name-of-a-non-test-attribute': ('a', ('qartod', 'np', {'x': 1})),
+    'name-of-an-imported-helper': ('b', ('qartod', 'mapdates', {'dates': [1]})),
     'unknown-dotted-module': ('a', ('qartod.extras', 'some_test', {'x': 1})),
     'unknown-nested-module': ('b', ('vendor.checks', 'some_test', {'x': 1})),
 }
